@@ -89,6 +89,12 @@ class Char:           # the loop variable itself
 @dataclass(frozen=True)
 class Other:
     why: str
+    dep: bool = True      # may depend on the loop character (False: provably independent of it)
+
+
+@dataclass(frozen=True)
+class Str:            # a string built from pieces (value of a string-typed local or helper result)
+    pieces: tuple
 
 
 def rng(v, cps):
@@ -116,28 +122,130 @@ class Path:
     env: dict
     pieces: list                    # appended to the accumulator on this path: ('char',) | ('lit', s) | ('num', value, node) | ('other', text)
     exits: str = "fall"
+    ret: Any = None                 # pieces of the returned string (helper frames only, exits == 'return')
 
 
 class LoopAnalyser:
     """symbolic execution of one loop body over cp"""
 
-    def __init__(self, const_eval, loopvar: str, acc: str):
-        self.const_eval = const_eval      # callable(ast expr) -> python constant or raises
+    MAX_CALL_DEPTH = 4
+
+    def __init__(self, const_eval, loopvar: str, acc: str, resolver=None):
+        self.const_eval = const_eval      # callable(ast expr[, frame]) -> python constant or raises
         self.loopvar = loopvar
         self.acc = acc
+        # resolver(call node, frame) -> Callee | None : repository function a call denotes (helpers of the
+        # loop body are analysed in place, so an extracted `_escape(cp)` is seen as if it had never been extracted)
+        self.resolver = resolver
+        self.frames: list = []            # callee frames being analysed (innermost last); [] = the loop's own function
+        self.helpers_entered: list[str] = []
+        # conditions whose truth could not be related to the code point: both branches were followed for the
+        # whole set, so per-path code point sets are over-approximations from then on
+        self.undecided: list[str] = []
+
+    def branch(self, test, cps, env):
+        try:
+            return self.cond(test, cps, env)
+        except Unsupported as e:
+            txt = unparse(test)[:80]
+            if txt not in self.undecided:
+                self.undecided.append(txt)
+            return cps, cps
+
+    # ---- helper calls ------------------------------------------------------------------------------
+    def call_pieces(self, n: ast.Call, cps, env):
+        """[(cps, pieces)] for a call of a repository helper analysed in place, or None when the callee is
+        not a repository function / lies outside the analysed subset (the caller then treats the call as an
+        opaque computed value)"""
+        if self.resolver is None or len(self.frames) >= self.MAX_CALL_DEPTH:
+            return None
+        callee = self.resolver(n, self.frames[-1] if self.frames else None)
+        if callee is None:
+            return None
+        fn = callee.node
+        fa = fn.args
+        if fa.vararg or fa.kwarg or fa.kwonlyargs or any(isinstance(a, ast.Starred) for a in n.args) \
+                or any(k.arg is None for k in n.keywords):
+            return None
+        params = [a.arg for a in list(fa.posonlyargs) + list(fa.args)]
+        if callee.skip_first:
+            params = params[1:]
+        if len(n.args) > len(params):
+            return None
+        defaults = dict(zip(reversed(params), reversed(fa.defaults)))
+        actual = dict(zip(params, n.args))
+        for k in n.keywords:
+            if k.arg not in params or k.arg in actual:
+                return None
+            actual[k.arg] = k.value
+        # evaluate the arguments in the caller's frame (splitting the code point set where they branch)
+        states = [(cps, {})]
+        for prm in params:
+            nxt = []
+            for c, bound in states:
+                if prm in actual:
+                    vals = self.ev(actual[prm], c, env)
+                elif prm in defaults:
+                    self.frames.append(callee)
+                    try:
+                        vals = self.ev(defaults[prm], c, {})
+                    finally:
+                        self.frames.pop()
+                else:
+                    return None
+                for c2, v in vals:
+                    b2 = dict(bound)
+                    b2[prm] = v
+                    nxt.append((c2, b2))
+            states = nxt
+        out = []
+        self.frames.append(callee)
+        self.helpers_entered.append(callee.name)
+        try:
+            for c, bound in states:
+                if not c:
+                    continue
+                saved = self.acc
+                self.acc = "\0no-accumulator"
+                try:
+                    paths = self.run_from(fn.body, Path(c, bound, []))
+                finally:
+                    self.acc = saved
+                for q in paths:
+                    if q.exits == "return":
+                        out.append((q.cps, q.ret))
+                    elif q.exits == "exit":       # raise inside the helper: not modelled
+                        raise Unsupported("helper raises")
+                    else:
+                        out.append((q.cps, [("other", "None", False)]))
+        except Unsupported:
+            return None
+        finally:
+            self.frames.pop()
+        return out
 
     # expression -> list of (cps, value)
     def ev(self, n, cps, env):
         if isinstance(n, ast.Constant):
             return [(cps, n.value)]
         if isinstance(n, ast.Name):
-            if n.id == self.loopvar:
-                return [(cps, Char())]
             if n.id in env:
                 return [(cps, env[n.id])]
+            if n.id == self.loopvar and not self.frames:
+                return [(cps, Char())]
             return [(cps, self._const(n))]
         if isinstance(n, ast.Attribute):
             return [(cps, self._const(n))]
+        if isinstance(n, ast.Tuple):
+            cur = [(cps, ())]
+            for e in n.elts:
+                cur = [(c2, vs + (v,)) for c, vs in cur for c2, v in self.ev(e, c, env)]
+            return cur
+        if isinstance(n, ast.Call) and isinstance(n.func, ast.Name) and n.func.id == "divmod" and len(n.args) == 2 \
+                and not n.keywords and "divmod" not in env:
+            q = ast.copy_location(ast.BinOp(left=n.args[0], op=ast.FloorDiv(), right=n.args[1]), n)
+            r = ast.copy_location(ast.BinOp(left=n.args[0], op=ast.Mod(), right=n.args[1]), n)
+            return [(c2, (a, b)) for c, a in self.ev(q, cps, env) for c2, b in self.ev(r, c, env)]
         if isinstance(n, ast.Call) and isinstance(n.func, ast.Name) and n.func.id == "ord" and len(n.args) == 1:
             out = []
             for c, v in self.ev(n.args[0], cps, env):
@@ -147,7 +255,7 @@ class LoopAnalyser:
             return self.ev(n.args[0], cps, env)
         if isinstance(n, ast.IfExp):
             out = []
-            t, f = self.cond(n.test, cps, env)
+            t, f = self.branch(n.test, cps, env)
             if t:
                 out += self.ev(n.body, t, env)
             if f:
@@ -159,18 +267,47 @@ class LoopAnalyser:
             out = []
             for c1, l in self.ev(n.left, cps, env):
                 for c2, r in self.ev(n.right, c1, env):
-                    out.append((c2, self._arith(n.op, l, r, c2, n)))
+                    if isinstance(n.op, ast.Add) and any(isinstance(x, (Str, Char, str)) for x in (l, r)):
+                        out.append((c2, Str(tuple(self._val_pieces(l, n.left) + self._val_pieces(r, n.right)))))
+                    else:
+                        out.append((c2, self._arith(n.op, l, r, c2, n)))
             return out
         if isinstance(n, ast.JoinedStr):
-            return [(cps, Other("fstring"))]
+            return [(c, Str(tuple(pcs))) for c, pcs in self.pieces_of(n, cps, env)]
+        if isinstance(n, ast.Call):
+            res = self.call_pieces(n, cps, env)
+            if res is not None:
+                out = []
+                for c, pcs in res:
+                    if len(pcs) == 1 and pcs[0][0] == "num":
+                        out.append((c, pcs[0][1]))
+                    elif len(pcs) == 1 and pcs[0][0] == "char":
+                        out.append((c, Char()))
+                    elif pcs and all(pc[0] == "lit" for pc in pcs):
+                        out.append((c, "".join(pc[1] for pc in pcs)))
+                    else:
+                        out.append((c, Str(tuple(pcs))))
+                return out
         try:
             return [(cps, self._const(n))]
         except Unsupported:
-            return [(cps, Other(unparse(n)))]
+            return [(cps, Other(unparse(n), self._depends(n, env)))]
+
+    def _depends(self, n, env) -> bool:
+        """does the expression mention the loop character or a local computed from it?"""
+        for x in ast.walk(n):
+            if isinstance(x, ast.Name):
+                if x.id in env:
+                    v = env[x.id]
+                    if not (isinstance(v, (int, str, float, bool)) or v is None or (isinstance(v, Other) and not v.dep)):
+                        return True
+                elif x.id == self.loopvar and not self.frames:
+                    return True
+        return False
 
     def _const(self, n):
         try:
-            v = self.const_eval(n)
+            v = self.const_eval(n, self.frames[-1]) if self.frames else self.const_eval(n)
         except Exception as e:
             raise Unsupported(f"non-constant name {unparse(n)}") from e
         return v
@@ -197,6 +334,8 @@ class LoopAnalyser:
         if rl is None or rr is None:
             return Other(unparse(node))
         txt = unparse(node)
+        if isinstance(op, (ast.BitOr, ast.BitAnd, ast.Mult)) and rl[0] == rl[1] and rr[0] != rr[1]:
+            l, r, rl, rr = r, l, rr, rl          # commutative: put the constant operand on the right
 
         def form_of(x):
             if isinstance(x, Term):
@@ -231,6 +370,10 @@ class LoopAnalyser:
                 a, b = rl[0] * k, rl[1] * k
                 return Term(txt, min(a, b), max(a, b), node)
             if isinstance(op, ast.BitOr) and k >= 0 and rl[0] >= 0:
+                fl = form_of(l)
+                if fl is not None and rl[1] < (k & -k if k else 1 << 62):
+                    # the variable operand lies entirely below the lowest set bit of the constant: `|` is `+`
+                    return Term(txt, rl[0] + k, rl[1] + k, node, (fl[0] + k, tuple(fl[1])))
                 return Term(txt, max(rl[0], k), (1 << max(rl[1].bit_length(), k.bit_length())) - 1, node)
         return Other(txt)
 
@@ -258,6 +401,13 @@ class LoopAnalyser:
                 t_all = t
                 left = right
             return t_all, minus(cps, t_all)
+        if isinstance(n, ast.Call) and isinstance(n.func, ast.Attribute) and n.func.attr == "isascii" and not n.args:
+            vals = self.ev(n.func.value, cps, env)
+            if all(isinstance(v, Char) for _, v in vals):
+                t = inter(cps, ((0, 127),))
+                return t, minus(cps, t)
+        if isinstance(n, ast.Constant) and isinstance(n.value, bool):
+            return (cps, ()) if n.value else ((), cps)
         raise Unsupported("condition " + unparse(n))
 
     def _cmp(self, l, op, r, cps, env):
@@ -283,6 +433,13 @@ class LoopAnalyser:
                 hit = inter(cps, pts)
                 return hit if isinstance(op, ast.In) else minus(cps, hit)
             else:
+                r1, r2 = rng(lv, cps), rng(rv, cps)
+                if r1 is not None and r2 is not None and type(op) in _RANGE_CMP:
+                    always, never = _RANGE_CMP[type(op)](r1, r2)
+                    if always:
+                        return cps
+                    if never:
+                        return ()
                 raise Unsupported(f"comparison {unparse(ln)} ? {unparse(rn)}")
         a, b = L.a - R.a, L.b - R.b          # a*cp + b  OP 0
         if a == 0:
@@ -336,8 +493,25 @@ class LoopAnalyser:
             return [Path(p.cps, p.env, p.pieces, "continue")]
         if isinstance(s, ast.Break):
             return [Path(p.cps, p.env, p.pieces, "break")]
+        if isinstance(s, ast.Return) and self.frames:
+            if s.value is None:
+                return [Path(p.cps, p.env, p.pieces, "return", [("other", "None", False)])]
+            return [Path(c, dict(p.env), list(p.pieces), "return", pcs) for c, pcs in self.pieces_of(s.value, p.cps, p.env)]
         if isinstance(s, (ast.Return, ast.Raise)):
             return [Path(p.cps, p.env, p.pieces, "exit")]
+        if isinstance(s, ast.Assign) and len(s.targets) == 1 and isinstance(s.targets[0], (ast.Tuple, ast.List)) \
+                and all(isinstance(t, ast.Name) for t in s.targets[0].elts):
+            names = [t.id for t in s.targets[0].elts]
+            if self.acc in names:
+                raise Unsupported("accumulator overwritten: " + unparse(s)[:60])
+            out = []
+            for c, v in self.ev(s.value, p.cps, p.env):
+                if not (isinstance(v, tuple) and len(v) == len(names)):
+                    raise Unsupported("statement " + unparse(s)[:60])
+                e = dict(p.env)
+                e.update(zip(names, v))
+                out.append(Path(c, e, list(p.pieces)))
+            return out
         if isinstance(s, ast.Assign) and len(s.targets) == 1 and isinstance(s.targets[0], ast.Name):
             name = s.targets[0].id
             if name == self.acc:
@@ -357,14 +531,44 @@ class LoopAnalyser:
                     raise Unsupported("accumulator updated with " + unparse(s))
                 return self._acc_assign(s.value, p, replace=False)
             out = []
-            cur = p.env.get(name)
-            for c, v in self.ev(s.value, p.cps, p.env):
-                e = dict(p.env)
-                e[name] = self._arith(s.op, cur, v, c, s)
-                out.append(Path(c, e, list(p.pieces)))
+            for c0, cur in self.ev(s.target, p.cps, p.env):
+                for c, v in self.ev(s.value, c0, p.env):
+                    e = dict(p.env)
+                    e[name] = self._arith(s.op, cur, v, c, s)
+                    out.append(Path(c, e, list(p.pieces)))
+            return out
+        if isinstance(s, ast.For) and isinstance(s.target, (ast.Name, ast.Tuple)) and not s.orelse:
+            # an inner loop over a sequence of statically known length (e.g. the code units of one character) is unrolled
+            out = []
+            for c, seqv in self.ev(s.iter, p.cps, p.env):
+                if isinstance(seqv, str) and len(seqv) <= 8:
+                    seqv = tuple(seqv)
+                if not isinstance(seqv, tuple) or len(seqv) > 8:
+                    raise Unsupported("statement " + unparse(s)[:60])
+                live = [Path(c, dict(p.env), list(p.pieces))]
+                done = []
+                for elem in seqv:
+                    nxt = []
+                    for q in live:
+                        e = dict(q.env)
+                        if isinstance(s.target, ast.Name):
+                            e[s.target.id] = elem
+                        elif isinstance(elem, tuple) and len(elem) == len(s.target.elts) and all(isinstance(t, ast.Name) for t in s.target.elts):
+                            e.update(zip([t.id for t in s.target.elts], elem))
+                        else:
+                            raise Unsupported("statement " + unparse(s)[:60])
+                        for r in self.run_from(s.body, Path(q.cps, e, list(q.pieces))):
+                            if r.exits in ("fall", "continue"):
+                                nxt.append(Path(r.cps, r.env, r.pieces))
+                            elif r.exits == "break":
+                                done.append(Path(r.cps, r.env, r.pieces))
+                            else:
+                                done.append(r)
+                    live = nxt
+                out += live + done
             return out
         if isinstance(s, ast.If):
-            t, f = self.cond(s.test, p.cps, p.env)
+            t, f = self.branch(s.test, p.cps, p.env)
             out = []
             if t:
                 out += self.run_from(s.body, Path(t, dict(p.env), list(p.pieces)))
@@ -398,8 +602,10 @@ class LoopAnalyser:
         """list of (cps, [pieces]) for a string expression"""
         if isinstance(n, ast.Constant) and isinstance(n.value, str):
             return [(cps, [("lit", n.value)])]
-        if isinstance(n, ast.Name) and n.id == self.loopvar:
-            return [(cps, [("char",)])]
+        if isinstance(n, ast.Call) and not (isinstance(n.func, ast.Name) and n.func.id in ("str", "ord", "int", "divmod")):
+            res = self.call_pieces(n, cps, env)
+            if res is not None:
+                return res
         if isinstance(n, ast.JoinedStr):
             cur = [(cps, [])]
             for v in n.values:
@@ -416,29 +622,47 @@ class LoopAnalyser:
             out = []
             for c1, a in self.pieces_of(n.left, cps, env):
                 for c2, b in self.pieces_of(n.right, c1, env):
-                    out.append((c2, a + b))
+                    if len(a) == 1 and len(b) == 1 and a[0][0] == "num" and b[0][0] == "num":
+                        out.append((c2, self._val_pieces(self._arith(n.op, a[0][1], b[0][1], c2, n), n)))   # integer addition
+                    else:
+                        out.append((c2, a + b))
             return out
         if isinstance(n, ast.Call) and isinstance(n.func, ast.Name) and n.func.id == "str" and len(n.args) == 1:
             return self.pieces_of(n.args[0], cps, env)
         if isinstance(n, ast.IfExp):
-            t, f = self.cond(n.test, cps, env)
+            t, f = self.branch(n.test, cps, env)
             out = []
             if t:
                 out += self.pieces_of(n.body, t, env)
             if f:
                 out += self.pieces_of(n.orelse, f, env)
             return out
-        out = []
-        for c, v in self.ev(n, cps, env):
-            if isinstance(v, Char):
-                out.append((c, [("char",)]))
-            elif isinstance(v, (Lin, Term)) or (isinstance(v, int) and not isinstance(v, bool)):
-                out.append((c, [("num", v, n)]))
-            elif isinstance(v, str):
-                out.append((c, [("lit", v)]))
-            else:
-                out.append((c, [("other", unparse(n))]))
-        return out
+        return [(c, self._val_pieces(v, n)) for c, v in self.ev(n, cps, env)]
+
+    def _val_pieces(self, v, n) -> list:
+        if isinstance(v, Char):
+            return [("char",)]
+        if isinstance(v, Str):
+            return list(v.pieces)
+        if isinstance(v, (Lin, Term)) or (isinstance(v, int) and not isinstance(v, bool)):
+            return [("num", v, n)]
+        if isinstance(v, str):
+            return [("lit", v)] if v else []
+        if isinstance(v, Other):
+            return [("other", v.why, v.dep)]
+        return [("other", unparse(n), True)]
+
+
+
+
+_RANGE_CMP = {   # (lo1,hi1) OP (lo2,hi2) -> (holds for all values, holds for none)
+    ast.Lt: lambda a, b: (a[1] < b[0], a[0] >= b[1]),
+    ast.LtE: lambda a, b: (a[1] <= b[0], a[0] > b[1]),
+    ast.Gt: lambda a, b: (a[0] > b[1], a[1] <= b[0]),
+    ast.GtE: lambda a, b: (a[0] >= b[1], a[1] < b[0]),
+    ast.Eq: lambda a, b: (a[0] == a[1] == b[0] == b[1], a[1] < b[0] or b[1] < a[0]),
+    ast.NotEq: lambda a, b: (a[1] < b[0] or b[1] < a[0], a[0] == a[1] == b[0] == b[1]),
+}
 
 
 def _simp(l: Lin):
